@@ -34,6 +34,7 @@ type ExecKnobs struct {
 	Pace     int    `json:"pace,omitempty"`
 	Preempt  int    `json:"preempt,omitempty"`
 	Procs    int    `json:"procs,omitempty"` // what the engine sees as GOMAXPROCS
+	CtxAware bool   `json:"ctxaware,omitempty"` // the simulated driver returns ctx.Err() once its context is done (a remote driver); off: it ignores the context like storage/memory
 }
 
 type FaultCase struct {
@@ -61,7 +62,7 @@ func (h *faultHarness) Decode(b []byte) (any, error) {
 
 func genKnobs(r *Rand) ExecKnobs {
 	return ExecKnobs{Memo: r.Chance(0.4), ChanSize: []int{0, 0, 1, 2, 7}[r.Intn(5)], BulkSize: []int{1, 2, 3, 10}[r.Intn(4)],
-		Sched: r.U64(), Permute: r.Bool(), Pace: r.Intn(3), Preempt: r.Intn(3), Procs: []int{1, 2, 4, 16}[r.Intn(4)]}
+		Sched: r.U64(), Permute: r.Bool(), Pace: r.Intn(3), Preempt: r.Intn(3), Procs: []int{1, 2, 4, 16}[r.Intn(4)], CtxAware: r.Chance(0.4)}
 }
 
 func (h *faultHarness) Gen(r *Rand, tier string, clean bool) any {
@@ -103,6 +104,11 @@ func (h *faultHarness) Shrink(ci any) []any {
 		d.Knobs.ChanSize = 0
 		out = append(out, &d)
 	}
+	if c.Knobs.CtxAware {
+		d := *c
+		d.Knobs.CtxAware = false
+		out = append(out, &d)
+	}
 	return out
 }
 
@@ -117,6 +123,7 @@ type execResult struct {
 	res     *sim.Result
 	bubble  string
 	tapeRec []uint32
+	failed  int // driver calls that returned an error to the engine
 }
 
 func buildStore(ctx context.Context, gs []GraphData) storage.Store {
@@ -140,7 +147,6 @@ func buildStore(ctx context.Context, gs []GraphData) storage.Store {
 // execStatement runs text through the server.BQL pipeline inside a simulated
 // run over the simulated driver.
 func execStatement(t *testing.T, gs []GraphData, text string, k ExecKnobs, faults []FaultSpec, inner storage.Store) *execResult {
-	ctx := context.Background()
 	er := &execResult{}
 	tape := sim.NewTape(k.Sched)
 	sim.SetMapSeed(k.Sched | 1)
@@ -148,10 +154,13 @@ func execStatement(t *testing.T, gs []GraphData, text string, k ExecKnobs, fault
 	cfg := sim.Config{Preempt: k.Preempt, PreemptMean: 200, MaxSteps: 6000000, Trace: traceOn}
 	var ss *simStore
 	er.res, er.bubble = simRun(t, tape, cfg, func(r *sim.Runtime) {
+		// the context lives inside the bubble (its done channel must not be closed from outside); it is never
+		// cancelled unless a "cancel" fault fires
+		ctx, cancel := context.WithCancel(context.Background())
 		if inner == nil {
 			inner = buildStore(ctx, gs)
 		}
-		ss = newSimStore(inner, simStoreCfg{Permute: k.Permute, Pace: k.Pace, Faults: faults})
+		ss = newSimStore(inner, simStoreCfg{Permute: k.Permute, Pace: k.Pace, Faults: faults, CtxAware: k.CtxAware, Cancel: cancel})
 		var st storage.Store = ss
 		if k.Memo {
 			st = memoization.New(ss)
@@ -167,7 +176,7 @@ func execStatement(t *testing.T, gs []GraphData, text string, k ExecKnobs, fault
 		})
 	})
 	if ss != nil {
-		er.trace, er.fired = ss.trace, ss.fired
+		er.trace, er.fired, er.failed = ss.trace, ss.fired, ss.failed
 	}
 	er.tapeRec = tape.Rec
 	if p := os.Getenv("BW_DUMPLOG"); p != "" && er.res != nil {
@@ -239,6 +248,24 @@ func (h *faultHarness) Run(t *testing.T, ci any) *Outcome {
 			sort.Ints(jl)
 			for _, j := range jl {
 				plans = append(plans, []FaultSpec{{Call: rec.Idx, Mode: "after", J: j}})
+			}
+		}
+		// the caller's context is cancelled while call k is in flight (at its start, or after j elements of a stream)
+		for _, rec := range base.trace {
+			plans = append(plans, []FaultSpec{{Call: rec.Idx, Mode: "cancel"}})
+			if rec.Stream && rec.Delivered > 0 {
+				js := []int{1, rec.Delivered}
+				if c.AllJ {
+					js = nil
+					for j := 1; j <= rec.Delivered; j++ {
+						js = append(js, j)
+					}
+				}
+				for i, j := range js {
+					if i == 0 || j != js[0] {
+						plans = append(plans, []FaultSpec{{Call: rec.Idx, Mode: "cancel", J: j}})
+					}
+				}
 			}
 		}
 		// sampled double faults
@@ -349,7 +376,7 @@ func (h *faultHarness) judge(c *FaultCase, kind string, er *execResult, plan []F
 	if er.err == nil && er.tbl == nil {
 		return mk("nil-table-nil-error", "Execute returned (nil, nil)")
 	}
-	if plan != nil && er.err == nil {
+	if plan != nil && er.failed > 0 && er.err == nil {
 		return mk("fault-swallowed", "a driver call failed (%v) but the statement reported success with a table of %d rows", er.fired, er.tbl.NumRows())
 	}
 	return nil
